@@ -2,7 +2,7 @@
 
 use super::good_lp::{collect_good_lp_duals, solve_with_good_lp};
 use super::{LpSolution, SolverError, find_invalid_variables};
-use crate::math::{OptimizationType, VariableType};
+use crate::math::{Comparison, OptimizationType, VariableType};
 use crate::transformers::LinearModel;
 use ::clarabel::solver::SolverStatus;
 use ::good_lp::SolutionWithDual;
@@ -53,7 +53,7 @@ pub fn solve_real_lp_problem_clarabel(lp: &LinearModel) -> Result<LpSolution<f64
             got: invalid_variables,
         });
     }
-    solve_with_good_lp(
+    let solution = solve_with_good_lp(
         lp,
         ::good_lp::clarabel,
         |model, _| Ok(model),
@@ -81,7 +81,60 @@ pub fn solve_real_lp_problem_clarabel(lp: &LinearModel) -> Result<LpSolution<f64
             let dual = solution.compute_dual();
             collect_good_lp_duals(dual, references)
         },
-    )
+    )?;
+    // An interior-point method can stop as (Almost)Solved at a point that is nowhere
+    // near the feasible region, typically on an infeasible or badly posed problem.
+    // Such a point is not a solution of the model: report it instead of returning it.
+    if let Some(violation) = first_violation(lp, &solution) {
+        return Err(SolverError::Other(format!(
+            "Clarabel stopped at a point that does not satisfy the model ({violation})"
+        )));
+    }
+    Ok(solution)
+}
+
+/// The first row or variable range of `lp` that the values of `solution` violate by more
+/// than `FEASIBILITY_TOLERANCE`, relative to the magnitude of the quantities involved.
+fn first_violation(lp: &LinearModel, solution: &LpSolution<f64>) -> Option<String> {
+    const FEASIBILITY_TOLERANCE: f64 = 1e-6;
+    let values: Vec<f64> = solution.assignment().iter().map(|a| a.value).collect();
+    for (name, value) in lp.variables().iter().zip(&values) {
+        let Some(variable) = lp.domain().get(name) else {
+            continue;
+        };
+        if let VariableType::Real(min, max) | VariableType::NonNegativeReal(min, max) =
+            variable.get_type()
+        {
+            let below = *value < *min - FEASIBILITY_TOLERANCE * min.abs().max(1.0);
+            let above = *value > *max + FEASIBILITY_TOLERANCE * max.abs().max(1.0);
+            if !value.is_finite() || below || above {
+                return Some(format!("{name} = {value} is outside [{min}, {max}]"));
+            }
+        }
+    }
+    for (index, constraint) in lp.constraints().iter().enumerate() {
+        let terms = constraint
+            .coefficients()
+            .iter()
+            .zip(&values)
+            .map(|(c, v)| c * v);
+        let activity: f64 = terms.clone().sum();
+        let scale = terms.fold(constraint.rhs().abs().max(1.0), |scale, term| {
+            scale.max(term.abs())
+        });
+        let violation = match constraint.constraint_type() {
+            Comparison::LessOrEqual | Comparison::Less => activity - constraint.rhs(),
+            Comparison::GreaterOrEqual | Comparison::Greater => constraint.rhs() - activity,
+            Comparison::Equal => (activity - constraint.rhs()).abs(),
+        };
+        if !(violation <= FEASIBILITY_TOLERANCE * scale) {
+            return Some(format!(
+                "row {index}: left-hand side {activity}, right-hand side {}",
+                constraint.rhs()
+            ));
+        }
+    }
+    None
 }
 
 /// Whether any point satisfies the rows and domains of `lp`, decided by solving it
@@ -96,7 +149,12 @@ fn has_feasible_point(lp: &LinearModel) -> Result<bool, SolverError> {
         |_| Ok(()),
         |_, _| IndexMap::new(),
     ) {
-        Ok(_) => Ok(true),
+        Ok(solution) => match first_violation(&feasibility, &solution) {
+            None => Ok(true),
+            Some(violation) => Err(SolverError::Other(format!(
+                "Clarabel stopped at a point that does not satisfy the model ({violation})"
+            ))),
+        },
         Err(SolverError::Infeasible) => Ok(false),
         Err(error) => Err(error),
     }
